@@ -7,8 +7,10 @@ import (
 	"encoding/json"
 	"fmt"
 	"os"
+	"regexp"
 	"sort"
 	"strings"
+	"time"
 )
 
 type Cmd map[string]any
@@ -504,6 +506,20 @@ func (sp *Stepper) pseudo(c Cmd) bool {
 		}
 	case "rewrite":
 		sp.St.rewrite(c.str("path"))
+	case "clockback":
+		// the wall clock steps back by an hour: seen from the commands that follow, everything
+		// recorded so far lies an hour in the future (all timestamps in the log are moved forward)
+		if b, err := os.ReadFile(sp.St.LogPath()); err == nil {
+			re := regexp.MustCompile(`"(\d{4}-\d\d-\d\dT\d\d:\d\d:\d\d(?:\.\d+)?Z)"`)
+			out := re.ReplaceAllFunc(b, func(m []byte) []byte {
+				t, err := time.Parse(time.RFC3339Nano, string(m[1:len(m)-1]))
+				if err != nil {
+					return m
+				}
+				return []byte(`"` + t.Add(time.Hour).Format(time.RFC3339Nano) + `"`)
+			})
+			_ = os.WriteFile(sp.St.LogPath(), out, 0o644)
+		}
 	default:
 		return false
 	}
